@@ -17,7 +17,7 @@ UtilVals == IF Kind = "Split" THEN {<<0, 1>>, <<1, 2>>, <<1, 1>>, NaNR}   \* (th
             ELSE {<<0, 1>>, <<1, 4>>, <<1, 2>>, <<3, 4>>, <<1, 1>>, NaNR}
 
 P == [kind |-> Kind, W |-> W, B |-> <<BNum, BDen>>, S |-> <<1, 2>>, Theta0 |-> <<1, 1>>,
-      K |-> 2, WTol |-> <<2, 1>>, Allow |-> Allow, Stale |-> Stale]
+      K |-> 2, WTol |-> <<2, 1>>, Allow |-> Allow, Stale |-> Stale, Sharp |-> FALSE]
 
 VARIABLES cm,      \* committed state
           tmp,     \* temporaries of the running simulation
